@@ -95,7 +95,7 @@ CHECKS = {
     },
     "C14": {
         "quick": {"gen": [G("MC_C14", "MC_C14_quick.cfg")]},
-        "thorough": {"gen": [G("MC_C14", "MC_C14_thorough.cfg")]},
+        "thorough": {"gen": [G("MC_C14", "MC_C14_thorough.cfg"), G("MC_C14", "MC_C14_thorough_b.cfg")]},
         "require_ops": ["optic.map_arrow", "optic.map_adapted", "optic.eval_adapted", "optic.laws", "laxf.optic_map_arrow", "laxf.optic_map_adapted"],
     },
     "C15": {
